@@ -274,7 +274,7 @@ def h_validate(ctx):
             raise
         except Exception as e:  # pylint: disable=broad-except
             outcome = "other:" + type(e).__name__
-            ctx.log("err", str(e)[:200])
+            ctx.log("err", type(e).__name__)
     sig = (f"src={src_kind}:sink={sink_kind}:chain={'+'.join(kinds)}:fan={fan}:missing={missing}:dangling={dangling}"
            f":listing={order}")
     ctx.log("outcome", outcome)
